@@ -410,6 +410,9 @@ func (p *pkgCtx) classify(id *ast.Ident, mut map[string]bool) (bool, string) {
 					if v {
 						return true, "receiver of mutating method " + fn.Name()
 					}
+					if mut["esc:"+key] && !p.callResultReadOnly(x) {
+						return true, "receiver of accessor " + fn.Name() + " whose result (a pointer into the receiver) is kept or written through"
+					}
 					return false, ""
 				}
 				if readonlyStd[fn.Name()] {
@@ -426,6 +429,100 @@ func (p *pkgCtx) classify(id *ast.Ident, mut map[string]bool) (bool, string) {
 		}
 	}
 	return false, ""
+}
+
+// returnedPointer: the address expression u is, through parentheses and type conversions only, a result of a return
+// statement.
+func (p *pkgCtx) returnedPointer(u ast.Expr) bool {
+	var cur ast.Node = u
+	for {
+		switch x := p.parent[cur].(type) {
+		case *ast.ParenExpr:
+			cur = x
+			continue
+		case *ast.CallExpr:
+			if tv, ok := p.info.Types[x.Fun]; ok && tv.IsType() && len(x.Args) == 1 && x.Args[0] == cur {
+				cur = x
+				continue
+			}
+			return false
+		case *ast.ReturnStmt:
+			return true
+		default:
+			return false
+		}
+	}
+}
+
+// callResultReadOnly: sel is the selector of a call of an accessor (a method returning a pointer into its receiver);
+// the call's result is dereferenced on the spot and the value read (operand of an operator, right-hand side, value
+// argument) and has no reference type, so nothing can be written through it and it is not kept.
+func (p *pkgCtx) callResultReadOnly(sel *ast.SelectorExpr) bool {
+	call, ok := p.parent[sel].(*ast.CallExpr)
+	if !ok || call.Fun != sel {
+		return false
+	}
+	var cur ast.Expr = call
+	derefd := false
+loop:
+	for {
+		switch x := p.parent[cur].(type) {
+		case *ast.ParenExpr:
+			cur = x
+		case *ast.StarExpr:
+			cur, derefd = x, true
+		case *ast.IndexExpr:
+			if x.X != cur {
+				break loop
+			}
+			cur, derefd = x, true
+		case *ast.SelectorExpr:
+			if x.X != cur {
+				break loop
+			}
+			if s := p.info.Selections[x]; s == nil || s.Kind() != types.FieldVal {
+				return false
+			}
+			cur, derefd = x, true
+		default:
+			break loop
+		}
+	}
+	if !derefd {
+		return false
+	}
+	tv, ok := p.info.Types[cur]
+	if !ok || !plainValueType(tv.Type) {
+		return false
+	}
+	switch x := p.parent[cur].(type) {
+	case *ast.AssignStmt:
+		for _, l := range x.Lhs {
+			if l == cur {
+				return false
+			}
+		}
+		return true
+	case *ast.BinaryExpr, *ast.ReturnStmt, *ast.ValueSpec, *ast.KeyValueExpr, *ast.CompositeLit:
+		return true
+	case *ast.CallExpr:
+		for _, a := range x.Args {
+			if a == cur {
+				return true
+			}
+		}
+	}
+	return false
+}
+
+func plainValueType(t types.Type) bool {
+	switch x := t.Underlying().(type) {
+	case *types.Basic:
+		return x.Kind() != types.UnsafePointer
+	case *types.Array:
+		return plainValueType(x.Elem())
+	}
+	return false
 }
 
 // isSyncType reports whether t (or what it points to / contains as array element) is declared in sync or sync/atomic.
@@ -518,7 +615,9 @@ func methodKey(fn *types.Func) string {
 	if pt, ok := r.(*types.Pointer); ok {
 		r = pt.Elem()
 	}
-	return types.TypeString(r, nil) + "." + fn.Name()
+	// qualified by package name, not path: the package under instrumentation is type-checked under the path "." while
+	// its importers see it under its import path, and the facts of one must be found by the other
+	return types.TypeString(r, func(pk *types.Package) string { return pk.Name() }) + "." + fn.Name()
 }
 
 func (p *pkgCtx) copyDst(call *ast.CallExpr, arg ast.Expr) bool {
@@ -588,6 +687,15 @@ func (p *pkgCtx) schedMode(mut map[string]bool) {
 				// only reads through that parameter (assembly callees are covered by the value scan at AsmExit)
 				top := p.chainTop(id)
 				if u, ok := p.parent[top].(*ast.UnaryExpr); ok && u.Op == token.AND && !p.addrArgReadOnly(u, map[*ast.FuncDecl]bool{}) {
+					if p.returnedPointer(u) {
+						// an accessor: the method itself writes nothing, it returns a pointer into the receiver. What
+						// happens through that pointer is decided at each call site (see callResultReadOnly)
+						if !mut["esc:"+m.key] {
+							mut["esc:"+m.key] = true
+							changed = true
+						}
+						return true
+					}
 					mut[m.key] = true
 					changed = true
 				}
@@ -1551,6 +1659,116 @@ func (p *pkgCtx) traceMode() {
 				usedX[f] = true
 			}
 			exts = append(exts, extCall{site, p.rep.Package + ":" + fn, fobj.FullName(), p.loc(call), strings.Join(strings.Fields(p.text(call)), " "), xsite})
+			return true
+		})
+	}
+	// comparisons the compiler implements as memory comparisons: == / != on arrays, strings and multi-field structs of
+	// plain values. There is no branch, index or callee in the source, yet the instructions executed depend on where the
+	// operands first differ. Both operands are wrapped in vxtrace.Q (recorded, returned unchanged) and the comparison is
+	// listed as an external callee of the enclosing block, judged by its operands like any other.
+	cmpType := func(t types.Type) bool {
+		switch u := t.Underlying().(type) {
+		case *types.Basic:
+			return u.Info()&types.IsString != 0
+		case *types.Array:
+			return u.Len() > 1 && plainValueType(u.Elem())
+		case *types.Struct:
+			if u.NumFields() < 2 {
+				return false
+			}
+			for i := 0; i < u.NumFields(); i++ {
+				if !plainValueType(u.Field(i).Type()) {
+					return false
+				}
+			}
+			return true
+		}
+		return false
+	}
+	for _, f := range p.files {
+		f := f
+		ast.Inspect(f, func(n ast.Node) bool {
+			be, ok := n.(*ast.BinaryExpr)
+			if !ok || (be.Op != token.EQL && be.Op != token.NEQ) {
+				return true
+			}
+			fd := p.enclosingFunc(be)
+			if fd == nil {
+				return true
+			}
+			tx, okx := p.info.Types[be.X]
+			ty, oky := p.info.Types[be.Y]
+			if !okx || !oky || tx.Value != nil || ty.Value != nil || !types.Identical(tx.Type, ty.Type) || !cmpType(tx.Type) {
+				return true
+			}
+			fn := fd.Name.Name
+			if fd.Recv != nil && len(fd.Recv.List) > 0 {
+				fn = strings.TrimPrefix(p.text(fd.Recv.List[0].Type), "*") + "." + fn
+			}
+			var site uint32
+			for cur := ast.Node(be); cur != nil; cur = p.parent[cur] {
+				if id, ok := blockID[cur]; ok {
+					site = id
+					break
+				}
+			}
+			idtxt := newSite(be, "ext")
+			delete(blockID, be)
+			var xsite uint32
+			fmt.Sscanf(idtxt, "%d", &xsite)
+			for _, o := range []ast.Expr{be.X, be.Y} {
+				p.insert(o.Pos(), "vxtrace.Q("+idtxt+", (")
+				p.insert(o.End(), "))")
+			}
+			usedX[f] = true
+			exts = append(exts, extCall{site, p.rep.Package + ":" + fn, "runtime.memequal [" + be.Op.String() + " on " + types.TypeString(tx.Type, func(pk *types.Package) string { return pk.Name() }) + "]", p.loc(be), strings.Join(strings.Fields(p.text(be)), " "), xsite})
+			return true
+		})
+	}
+	// addresses handed back by assembly: a call of a function of this package that has no Go body and returns a pointer,
+	// unsafe.Pointer, uintptr or slice is wrapped in vxtrace.PA - the location Go code then accesses through the result
+	// is an index event
+	asmFuncs := map[types.Object]bool{}
+	for _, f := range p.files {
+		for _, d := range f.Decls {
+			if fd, ok := d.(*ast.FuncDecl); ok && fd.Body == nil && fd.Recv == nil {
+				if obj := p.info.Defs[fd.Name]; obj != nil {
+					asmFuncs[obj] = true
+				}
+			}
+		}
+	}
+	for _, f := range p.files {
+		f := f
+		ast.Inspect(f, func(n ast.Node) bool {
+			call, ok := n.(*ast.CallExpr)
+			if !ok {
+				return true
+			}
+			id, ok := call.Fun.(*ast.Ident)
+			if !ok || !asmFuncs[p.info.Uses[id]] || p.enclosingFunc(call) == nil {
+				return true
+			}
+			tv, ok := p.info.Types[call]
+			if !ok {
+				return true
+			}
+			isAddr := false
+			switch u := tv.Type.Underlying().(type) {
+			case *types.Pointer, *types.Slice:
+				isAddr = true
+			case *types.Basic:
+				isAddr = u.Kind() == types.UnsafePointer || u.Kind() == types.Uintptr
+			}
+			if !isAddr {
+				return true
+			}
+			if _, isStmt := p.parent[call].(*ast.ExprStmt); isStmt {
+				return true
+			}
+			p.insert(call.Pos(), "vxtrace.PA("+newSite(call, "asmaddr")+", ")
+			p.insert(call.End(), ")")
+			usedX[f] = true
 			return true
 		})
 	}
